@@ -758,6 +758,20 @@ func c07Recover(c *Ctx) {
 	}
 	errT := types.Universe.Lookup("error").Type()
 	mayRaw := map[*ssa.Function]bool{}
+	// rawOnly[f]: when every raw error f can return is known (by a type test that held) to be of one of these
+	// types; absent when nothing is known
+	rawOnly := map[*ssa.Function]map[string]bool{}
+	rawCallee := func(v ssa.Value) *ssa.Function {
+		if ex, ok := v.(*ssa.Extract); ok {
+			v = ex.Tuple
+		}
+		if cl, ok := v.(*ssa.Call); ok {
+			return cl.Common().StaticCallee()
+		}
+		return nil
+	}
+	rawAny := map[*ssa.Function]bool{}
+	var lastKinds map[string]bool // kinds of the raw error found by the last rawAt (nil: any)
 	isRawSrc := func(v ssa.Value) bool {
 		if rawErr[v] {
 			return true
@@ -795,20 +809,46 @@ func c07Recover(c *Ctx) {
 			return out
 		}
 		raw := ""
+		lastKinds = map[string]bool{}
+		anyKind := false
 		notAtReturn := typeFacts(b, res, false)
 		for _, da := range phiEdgesWithBlocks(res, b) {
 			hit := ""
+			var kinds map[string]bool // what the raw value can be, if known from the callee's summary
+			kindsKnown := true
 			for _, d := range deepDefs(da.v, []*ssa.Function{f}) {
 				if isRawSrc(d) {
 					hit = c.posv(d)
+					if sc := rawCallee(d); sc != nil && rawOnly[sc] != nil && !rawErr[d] {
+						if kinds == nil {
+							kinds = map[string]bool{}
+						}
+						for t := range rawOnly[sc] {
+							kinds[t] = true
+						}
+					} else {
+						kindsKnown = false
+					}
 				}
 			}
 			if hit == "" {
 				continue
 			}
 			excluded := false
-			for t := range typeFacts(da.b, da.v, true) {
+			pos := typeFacts(da.b, da.v, true)
+			for t := range pos {
 				if notAtReturn[t] {
+					excluded = true
+				}
+			}
+			if kindsKnown && kinds != nil {
+				all := true
+				for t := range kinds {
+					if !notAtReturn[t] {
+						all = false
+					}
+				}
+				if all {
 					excluded = true
 				}
 			}
@@ -822,15 +862,34 @@ func c07Recover(c *Ctx) {
 						if !ok || ex.Index != 1 || !fc.True {
 							continue
 						}
-						if ta, ok := ex.Tuple.(*ssa.TypeAssert); ok && ta.CommaOk && ta.X == da.v && notAtReturn[ta.AssertedType.String()] {
-							excluded = true
+						if ta, ok := ex.Tuple.(*ssa.TypeAssert); ok && ta.CommaOk && ta.X == da.v {
+							pos[ta.AssertedType.String()] = true
+							if notAtReturn[ta.AssertedType.String()] {
+								excluded = true
+							}
 						}
 					}
 				}
 			}
 			if !excluded {
 				raw = hit
+				// what is known about this raw value's type on the way out
+				switch {
+				case len(pos) > 0:
+					for t := range pos {
+						lastKinds[t] = true
+					}
+				case kindsKnown && kinds != nil:
+					for t := range kinds {
+						lastKinds[t] = true
+					}
+				default:
+					anyKind = true
+				}
 			}
+		}
+		if anyKind {
+			lastKinds = nil
 		}
 		return raw
 	}
@@ -852,6 +911,17 @@ func c07Recover(c *Ctx) {
 				if rawAt(f, b, ret.Results[n-1]) != "" {
 					mayRaw[f] = true
 					changed = true
+					if lastKinds == nil {
+						rawOnly[f] = nil
+						rawAny[f] = true
+					} else if !rawAny[f] {
+						if rawOnly[f] == nil {
+							rawOnly[f] = map[string]bool{}
+						}
+						for t := range lastKinds {
+							rawOnly[f][t] = true
+						}
+					}
 				}
 			}
 		}
